@@ -24,12 +24,15 @@ RULE = ("random small panels (instances <= 3, columns <= 2, series length <= 9 (
         "documented boundary); distinct = distinct canonical JSON case")
 TRUSTED = [
     "hand-written Gallina model (coq/C14/Model.v) of each transformer as a list function over Q. Tie "
-    "1 (translator/closedform_c14.py + coq/C14/Bridge.v, fail-closed, every run): the index "
-    "arithmetic of padder / truncation / interpolate / IntervalSegmenter / SlidingWindowSegmenter / "
-    "RandomIntervalFeatureExtractor, the parameter tests, the WHOLE body of PAA's running-sum loop "
-    "(symbolically executed) and the data flow of Imputer's drift branch are regenerated from the "
-    "source and proved equal, for all arguments, to what the model is built from; the remaining "
-    "statements of those functions are pinned textually. Tie 2: the in-Coq correspondence run",
+    "1 (translator/closedform_c14.py on the symbolic evaluator translator/symeval_c14.py + "
+    "coq/C14/Bridge.v, fail-closed, every run): every anchored method of padder / truncation / "
+    "interpolate / IntervalSegmenter / SlidingWindowSegmenter / PAA / Imputer is summarised by data "
+    "flow (returned term, stored attributes, raise sites, effect calls; helpers inlined, locals "
+    "substituted) and matched against a reference summary with holes; the index arithmetic, the "
+    "parameter tests, the WHOLE body of PAA's running-sum loop (state variables found by role) and "
+    "the data flow of Imputer's drift branch are regenerated and proved equal (Z: lia; PAA: "
+    "field-wise up to == with independent case splits), for all arguments, to what the model is "
+    "built from. Tie 2: the in-Coq correspondence run",
     "the library primitives are modelled, not verified: numpy slicing / np.full / "
     "np.pad(mode='edge') / np.array_split / np.hstack / as_strided windows, scipy interp1d(linear) "
     "on np.linspace grids, pandas fillna / interpolate(linear, nearest) / mean / median, statsmodels "
